@@ -21,6 +21,7 @@ import (
 	"github.com/pkg/errors"
 
 	"seata.apache.org/seata-go/pkg/datasource/sql/undo"
+	"seata.apache.org/seata-go/pkg/util/log"
 )
 
 // ATTx
@@ -51,19 +52,31 @@ func (tx *ATTx) Rollback() error {
 	return err
 }
 
+// rollbackLocal ends the local transaction after a failed phase one
+func (tx *ATTx) rollbackLocal() {
+	if rerr := tx.tx.target.Rollback(); rerr != nil {
+		log.Errorf("rollback local transaction after failed phase one: %v", rerr)
+	}
+}
+
 // commitOnAT
 func (tx *ATTx) commitOnAT() error {
 	originTx := tx.tx
+	// database/sql hands the connection back to the pool after Commit returns, whatever it returns:
+	// when phase one fails before the local commit, the local transaction has to be ended here
 	if err := originTx.register(originTx.tranCtx); err != nil {
+		tx.rollbackLocal()
 		return err
 	}
 
 	undoLogMgr, err := undo.GetUndoLogManager(originTx.tranCtx.DBType)
 	if err != nil {
+		tx.rollbackLocal()
 		return err
 	}
 
 	if err = undoLogMgr.FlushUndoLog(originTx.tranCtx, originTx.conn.targetConn); err != nil {
+		tx.rollbackLocal()
 		if rerr := originTx.report(false); rerr != nil {
 			return errors.WithStack(rerr)
 		}
